@@ -340,6 +340,11 @@ def record_run(real, cell, S, prim, opts, ref_int, symprec=1e-5, scale=1.0):
     tol = TOL_PROJ
     if route == "file":      # FORCE_SETS holds forces with 10 decimals: |dF| <= 5e-11
         tol = max(TOL_PROJ, 1000 * 5e-11 / dist * real.D ** 2 * float((real.L ** 2).sum()))
+    cells_tol = None
+    if route.startswith("cells"):
+        # displacements recovered from handed-out POSITIONS carry the round-off of the positions on every atom
+        # (~2e-16 * |position|): the forces, hence every block, inherit eps * |pos| / dist * max|Phi| absolutely
+        cells_tol = max(TOL_PROJ, 1e3 * 2.3e-16 * 4.0 * float(np.abs(real.L).sum()) / dist * float(np.abs(ref_int).max()))
     run = dict(sym=sym, diag=diag, pm=pm, trig=trig, layout=layout, nops=0, reps=[], mapa=[], site=[], dirs=[], p2s=[], fc=0,
                exact=False, conv=0, convexact=False, err="")
     info = dict(opts=dict(is_symmetry=sym, is_diagonal=diag, is_plusminus=pm, is_trigonal=trig, layout=layout,
@@ -421,6 +426,7 @@ def record_run(real, cell, S, prim, opts, ref_int, symprec=1e-5, scale=1.0):
             if fc.shape != (n, n, 3, 3):
                 raise RuntimeError("shape %s" % (fc.shape,))
             T, resid = real.project(fc, None, idx)
+            resid_abs = real.last_abs_resid
             inv = np.empty(n, dtype=int)
             inv[np.array(idx)] = np.arange(n)
             T = T[inv]
@@ -429,6 +435,7 @@ def record_run(real, cell, S, prim, opts, ref_int, symprec=1e-5, scale=1.0):
             if fc.shape != (len(p2s_real), n, 3, 3):
                 raise RuntimeError("shape %s" % (fc.shape,))
             T, resid = real.project(fc, None, idx)
+            resid_abs = real.last_abs_resid
             fc_exp = fc_ref[p2s_real]
         arr = T
         # layout conversion of what was produced (compact_fc_to_full_fc uses distribute_force_constants_by_translations)
@@ -441,11 +448,12 @@ def record_run(real, cell, S, prim, opts, ref_int, symprec=1e-5, scale=1.0):
             cv = compact_fc_to_full_fc(ph.primitive, fc.copy())
             arr2, resid2 = real.project(cv, None, idx)
             arr2 = arr2[inv]
-        run["convexact"] = bool(resid2 < tol)
+        run["convexact"] = bool(resid2 < tol) if cells_tol is None else bool(real.last_abs_resid < cells_tol)
         info["resid_conv"] = resid2
         scale = float(np.abs(fc_ref).max())
         info.update(resid=resid, maxdiff_rel=float(np.abs(fc - fc_exp).max() / scale), n_disp=len(rows))
-        run["exact"] = bool(resid < tol)
+        run["exact"] = bool(resid < tol) if cells_tol is None else bool(resid_abs < cells_tol)
+        info["cells_tol"] = cells_tol
     except Exception as e:  # an exception of the real code where the specification expects success
         run["err"] = type(e).__name__ + ": " + str(e)[:120]
         info["traceback"] = traceback.format_exc()[-1500:]
